@@ -211,7 +211,7 @@ inline std::string one_line(std::string s)
 
 inline int run_child(Scenario const& sc, std::vector<int> const& prefix, std::vector<int> const& prefix_enabled, int out_fd)
 {
-  alarm(static_cast<unsigned>(sc.c("child_timeout_s", 20)));
+  alarm(static_cast<unsigned>(sc.c("child_timeout_s", 30)));
   g_ctl = new Ctl;
   g_world = new World;
   Ctl& C = *g_ctl;
@@ -622,7 +622,7 @@ inline int main_entry(int argc, char** argv, std::map<std::string, ScenarioFacto
     return 0;
   }
 
-  unsigned long long executions = 0, transitions = 0, stalls = 0, capped_bound = 0;
+  unsigned long long executions = 0, transitions = 0, stalls = 0, capped_bound = 0, slow_children = 0;
   std::set<uint64_t> outcomes;
   std::map<std::string, int> viol_kinds;
   size_t max_trace = 0;
@@ -669,6 +669,22 @@ inline int main_entry(int argc, char** argv, std::map<std::string, ScenarioFacto
     for (auto const& p : r.trace) choices.push_back(p.chosen);
     // a child that died did not report its trace: its schedule is the replayed prefix followed by default choices
     if (r.trace.empty() && (r.verdict == "crash" || r.verdict == "hang")) choices = run.job.prefix;
+    if (r.verdict == "hang")
+    {
+      // a deterministic schedule that timed out is re-run alone with a much longer limit before it is called a hang
+      Scenario slow = sc;
+      slow.cfg["child_timeout_s"] = 180;
+      Job jr;
+      jr.prefix = choices;
+      ChildResult again = run_sync(slow, jr);
+      if (again.verdict != "hang")
+      {
+        ++slow_children;
+        r = again;
+        choices.clear();
+        for (auto const& p : r.trace) choices.push_back(p.chosen);
+      }
+    }
     if (r.verdict == "violation" || r.verdict == "crash" || r.verdict == "hang")
     {
       int& cnt = viol_kinds[r.kind];
@@ -794,6 +810,7 @@ inline int main_entry(int argc, char** argv, std::map<std::string, ScenarioFacto
     .u("stalls_observed", stalls)
     .u("max_choice_points", max_trace)
     .u("alternatives_beyond_preemption_bound", capped_bound)
+    .u("children_rerun_with_longer_time_limit", slow_children)
     .u("configurations", 1)
     .emit();
   {
